@@ -42,6 +42,7 @@ type Unit struct {
 	Name     string
 	Log      []string
 	declared map[string]bool
+	specHeap map[string]*heapTemplate // heap parameters of the heap-reading spec functions declared in this unit
 	Obls     []*Obligation
 	Unsupported []string
 	nsym     int
@@ -168,6 +169,7 @@ type FuncCtx struct {
 	inlineStack map[*ssa.Function]bool
 	freshRefs map[string]bool
 	guardMode bool
+	recHeap   *heapTemplate // heap parameters of the spec function whose body is being emitted
 	guardAcc  map[*ssa.Function]map[int]string
 	autoLoopInv bool
 	recSelf   string
@@ -193,6 +195,24 @@ type State struct {
 	heldLocks    []string            // "key|ref" of locks acquired on some path to here (checked precisely by SMT)
 	private      map[string][]string // type key -> references allocated by this activation and not yet published
 	cases        []string // path conditions of the states joined at the most recent merge (exhaustive under pc)
+	tmpl         *heapTemplate // non-nil: the body of a heap-reading spec function is being evaluated; component reads become parameters
+}
+
+// heapTemplate records the heap components a `spec func heap` body reads; each becomes an implicit parameter.
+type heapTemplate struct {
+	keys  []string
+	sorts []string
+}
+
+func (t *heapTemplate) param(key, sort string) string {
+	for i, k := range t.keys {
+		if k == key {
+			return qsym("hp!" + t.keys[i])
+		}
+	}
+	t.keys = append(t.keys, key)
+	t.sorts = append(t.sorts, sort)
+	return qsym("hp!" + key)
 }
 
 func (s *State) clone() *State {
@@ -683,6 +703,9 @@ func typeKey(t types.Type) string {
 // compTerm returns the current term of a heap component, creating its initial symbol lazily.
 func (fc *FuncCtx) compTerm(st *State, key, sort string) string {
 	fc.compSorts[key] = sort
+	if st.tmpl != nil {
+		return st.tmpl.param(key, sort)
+	}
 	if !strings.HasPrefix(key, "L!") && !strings.HasPrefix(key, "GI!") {
 		vol := st.volatileAll && !strings.HasPrefix(key, "CH!") && !strings.HasPrefix(key, "ONCE!") && !fc.eng.monitorProtected(key) && !fc.isCellKey(key)
 		for _, m := range st.volatile {
